@@ -22,6 +22,7 @@ import (
 	"github.com/openbao/openbao/v2/internal/audit"
 	"github.com/openbao/openbao/v2/internal/helper/namespace"
 	"github.com/openbao/openbao/v2/internal/vault/seal"
+	"pgregory.net/rapid"
 )
 
 // vSeq is the global logical clock shared by recording backends and audit devices.
@@ -587,4 +588,20 @@ func (b *recBE) kvOp(ctx context.Context, req *logical.Request, key string) (*lo
 		return logical.ListResponse(ks), nil
 	}
 	return nil, logical.ErrUnsupportedOperation
+}
+
+// fairIndex draws an index in [0,n) from fair coin flips (rapid's integer and SampledFrom generators
+// favour boundary values, which starves weighted choices).
+func fairIndex(rt *rapid.T, label string, n int) int {
+	if n <= 1 {
+		return 0
+	}
+	v := 0
+	for bits := 0; (1 << bits) < n*4; bits++ {
+		v <<= 1
+		if rapid.Bool().Draw(rt, label) {
+			v |= 1
+		}
+	}
+	return v % n
 }
